@@ -470,3 +470,61 @@ theorem apply_contract (f : Filter) (s : Text) (ts : List Token) (h : Contract s
   exact h.inb t ht
 
 end TantivyModel.Tok
+
+namespace TantivyModel.Tok
+
+/-! ### FacetTokenizer: the threaded-buffer model with no filters is the plain tokenizer -/
+
+theorem facetCuts_ge (sep : Nat) (s : Text) (first : Bool) (o : Nat) :
+    ∀ p ∈ facetCuts sep first o s, o ≤ p :=
+  fun p hp => boundaries_ge (facetCuts_boundary sep s first o p hp)
+
+theorem facetCuts_sorted (sep : Nat) (s : Text) : ∀ (first : Bool) (o : Nat),
+    (facetCuts sep first o s).Pairwise (· ≤ ·) := by
+  induction s with
+  | nil => intro first o; simp [facetCuts]
+  | cons c s ih =>
+    intro first o
+    simp only [facetCuts]
+    rw [List.pairwise_append]
+    refine ⟨by split <;> simp, ih false (o + c.w), ?_⟩
+    intro a ha b hb
+    split at ha
+    · simp only [List.mem_singleton] at ha; subst ha
+      have := facetCuts_ge sep s false (a + c.w) b hb; omega
+    · simp at ha
+
+/-- appending the segments between consecutive cuts rebuilds the prefixes -/
+theorem facetChainAux_nil (s : Text) : ∀ (cs : List Nat) (a : Nat),
+    (∀ c ∈ cs, a ≤ c) → cs.Pairwise (· ≤ ·) →
+    facetChainAux [] ((sliceFrom 0 s 0 a).map Cp.code) (facetPiecesAux s a cs)
+      = cs.map (fun p => (sliceFrom 0 s 0 p).map Cp.code) := by
+  intro cs
+  induction cs with
+  | nil => intro a _ _; rfl
+  | cons c cs ih =>
+    intro a ha hp
+    rw [List.pairwise_cons] at hp
+    have hac := ha c List.mem_cons_self
+    have e : (sliceFrom 0 s 0 a).map Cp.code ++ (sliceFrom 0 s a c).map Cp.code
+        = (sliceFrom 0 s 0 c).map Cp.code := by
+      rw [← List.map_append, sliceFrom_append (Nat.zero_le a) hac]
+    simp only [facetPiecesAux, facetChainAux, facetThrough, e, List.map_cons, List.singleton_append]
+    rw [ih c hp.1 hp.2]
+
+/-- `FacetTokenizer` under the empty filter chain (the threaded-buffer model `facetChain`) is the
+plain `facetTokens` -/
+theorem facetChain_nil (sep : Nat) (s : Text) : facetChain sep [] s = facetTokens sep s := by
+  unfold facetChain facetTokens facetPieces
+  by_cases hs : s.isEmpty
+  · simp [hs, facetChainAux, facetThrough]
+  · simp only [hs, Bool.false_eq_true, if_false, facetChainAux, facetThrough, List.append_nil,
+      List.nil_append, List.map_cons, List.singleton_append]
+    congr 1
+    have h0 : ([] : List Nat) = (sliceFrom 0 s 0 0).map Cp.code := by
+      rw [sliceFrom_empty_of_le (Nat.le_refl 0)]; rfl
+    rw [h0, facetChainAux_nil s _ 0 (fun c _ => Nat.zero_le c) (facetCuts_sorted sep s true 0),
+      List.map_map]
+    rfl
+
+end TantivyModel.Tok
